@@ -119,7 +119,7 @@ def minimise(v):
     shape = "anything" if spec.get("anything") else f"{spec['verb']}/{spec['exc']}"
     v["signature"] = (
         f"{kind}:{shape}:{'import' if spec['imp'] else 'imported'}:{spec['sk']}/{spec.get('ok')}:"
-        f"s{len(spec['subj'])}o{len(spec['obj'] or [])}:edges{len(case['imports'])}:{r[1]}"
+        f"edges{len(case['imports'])}:{r[1]}"
     )
     return v
 
